@@ -177,7 +177,7 @@ func contractPhase(cr *checkResult, w *symex.World, update bool) {
 	}
 	scratch := filepath.Join(verifDir, "scratch", fmt.Sprintf("%s-%d", prop, os.Getpid()))
 	defer os.RemoveAll(scratch)
-	outs := symex.Discharge(obls, symex.SolveOpts{TimeoutMs: timeout, Dir: scratch, Parallel: 8, RequireTwo: false})
+	outs := symex.Discharge(obls, symex.SolveOpts{TimeoutMs: timeout, Dir: scratch, Parallel: 12, RequireTwo: cr.tier == "thorough"})
 	known := loadKnownFindings()
 	var names []string
 	for _, o := range outs {
